@@ -15,8 +15,8 @@ RULE = ('random programs as for C01 whose bodies also contain ! at the top level
         'several solutions to the left of the cut.')
 TRUSTED_BASE = []
 
-N_LONG = {'quick': 50, 'thorough': 1200}
-N_REC = {'quick': 50, 'thorough': 1200}
+N_LONG = {'quick': 50, 'thorough': 600}
+N_REC = {'quick': 50, 'thorough': 600}
 
 def gen(rng, tier):
     n = 220 if tier == 'quick' else 5000
